@@ -348,7 +348,7 @@ func init() {
 			"variants: (1) each marked break, one at a time and all together, replaced by padding of 6 kinds (blank lines, comment lines, one long comment, space/tab lines, mixed, trailing comment) with run lengths from {1…70000} incl. 1023/1024/1025/2047/2048/2049 and leading shifts {0,1000,2040}; " +
 			"(2) single tokens (string, raw string, comment, identifier, symbol, int, embedded-string piece) of those lengths at file offsets {0,1000,2040}; (3) the same bytes delivered through 16 chunking readers (1 byte, half, data+EOF, zero-length reads, fixed and random sizes). " +
 			"non-trivial = base program parses and the variant was compared; distinct = distinct (variant family, padding kind or token kind or chunker, size, shift) tuples" +
-			" Added: comment text drawn from code-like fragments, the script-file and test-directory entry points (9 token kinds × lengths up to 200 000 bytes, compared with the same bytes evaluated in process), pairs of long tokens differing in one character.",
+			" Added: comment text drawn from code-like fragments, the script-file and test-directory entry points (9 token kinds × lengths up to 200 000 bytes, compared with the same bytes evaluated in process), pairs of long tokens differing in one character. Sixth round: script files also loaded through import / invite!; multi-byte characters straddling offsets 512 / 1024 / 4096 / 65536; a raw string spanning CR LF in a CR LF file.",
 		Assumptions: []string{
 			"the printed AST (Program.String()) identifies the parse; source positions are not compared",
 			"the independent scanner only pads top-level statement breaks of corpus files it fully understands (no embedded strings, no char-literal escapes); other corpus files are used for chunking only",
